@@ -24,19 +24,26 @@
      MX, SOA, MINFO, SRV (IN), TXT, HINFO — names absolute, relative or `@`, in any octet forms;
      character-strings quoted or unquoted, each octet raw, `\X` or `\DDD`, with raw newlines inside
      quotes; all with the lines they span;
+   * gaps and line ends (`C23_gaps`): between fields any mix of blanks, `(`, `)` and — inside
+     parentheses — line ends (LF or CRLF) with optional comments; at the end of a record or line
+     such a gap that closes the parentheses, an optional comment, LF or CRLF; the line count and
+     the parenthesis state follow;
    * records assembled from these, with TTL and class each written or omitted, in either order (context
      defaults: `$TTL` default before previous TTL; previous class), owner absolute / relative /
-     `@` / omitted (leading blanks ⇒ previous owner); `$ORIGIN` and `$TTL` directive lines; blank
-     and comment-only lines;
+     `@` / omitted (leading blanks ⇒ previous owner); the gaps before, inside and after the RDATA
+     general (so records may span lines in parentheses, the usual `SOA ( … )` style included);
+     `$ORIGIN` and `$TTL` directive lines; blank and comment-only lines; every line ending LF or
+     CRLF;
    * whole files of such entries: exactly the denoted records, in order, with line numbers
      (`C23_records_partial`).
   NOT PROVED (the gap; the name says `_partial`)
      the typed RDATA syntaxes of AAAA, WKS and Chaosnet A (not in the presentation AST: in the
-     subset they can be written in `\#` form); parentheses across lines, CRLF, a last line
-     without newline.  These are covered on every run by the correspondence oracle, which is
-     independent of these proofs: the harness's pretty-printer renders random record lists with
-     random choices for *all* of the above and the expected parse is the generating record list
-     (op `zfp`, spec column = expected records).
+     subset they can be written in `\#` form); parentheses (and therefore line ends) *before the
+     type field* of a record or inside directives — there the fields are separated by blanks
+     only; a last line without newline.  These are covered on every run by the correspondence
+     oracle, which is independent of these proofs: the harness's pretty-printer renders random
+     record lists with random choices for *all* of the above and the expected parse is the
+     generating record list (op `zfp`, spec column = expected records).
 -/
 import QV.Proofs.ZoneFile.Files
 
@@ -112,16 +119,38 @@ theorem C23_generic_rdata (ctx : Ctx) (cls ty : Nat) (h41 : ty ≠ 41) (h250 : t
   parseRdata_generic ctx cls ty h41 h250 sep rd ws cmt r hne hsep hlen hvalid hws hc line
 
 /-- **RDATA**, generic or typed (the kinds of `PRdata`: `\#`, A, one-name types, MX, SOA, MINFO,
-    SRV, TXT, HINFO): the text, up to the end of the line, is read as the RDATA it denotes, and the
-    line count advances by the newlines inside names and strings plus one -/
+    SRV, TXT, HINFO), with any well-formed gaps — blanks, parentheses, line ends and comments
+    inside parentheses — before (`G 0`), inside (`G (i+1)`) and after it (`tg`), up to the end of
+    the line (LF or CRLF): the text is read as the RDATA it denotes; the line count advances by
+    the line ends inside gaps, names and strings plus one, and the parentheses are closed.
+    `S i` is "inside parentheses" before gap `i`. -/
 theorem C23_rdata_partial (ctx : Ctx) (hctx : CtxWF ctx) (cls ty : Nat) (h41 : ty ≠ 41) (h250 : ty ≠ 250)
-    (sep ws cmt r : List UInt8) (hne : sep ≠ []) (hsep : ∀ x ∈ sep, isWs x = true)
-    (hws : ∀ x ∈ ws, isWs x = true) (hc : commentOK cmt) (rd : PRdata) (hwf : WFRdata rd)
+    (G : Nat → PGap) (S : Nat → Bool) (tg : PGap) (cmt : List UInt8) (crlf : Bool) (r : List UInt8)
+    (rd : PRdata) (hG : ∀ i, i ≤ rdataGaps rd → GapOK (G i) (S i) (S (i + 1)))
+    (hT : TailOK tg cmt (S (rdataGaps rd + 1))) (hwf : WFRdata rd)
     (hk : kindOK cls ty rd = true) (w : List UInt8) (hw : rdataWire ctx.origin rd = some w)
     (hv : ∀ g, rd = .generic g → Rdata.validate cls ty g.toArray = .ok ()) (line : Nat) :
-    parseRdata ctx cls ty ⟨sep ++ (rdataText sep rd ++ (ws ++ (cmt ++ 10 :: r))), line, false⟩ =
-      .ok (w, ⟨r, line + rdataLines rd + 1, false⟩) :=
-  parseRdata_render ctx hctx cls ty h41 h250 sep ws cmt r hne hsep hws hc rd hwf hk w hw hv line
+    parseRdata ctx cls ty
+      ⟨gapText (G 0) ++ (rdataText (fun i => G (i + 1)) rd ++ (tailText tg cmt crlf ++ r)), line, S 0⟩ =
+      .ok (w, ⟨r, line + gapLines (G 0) + rdataLines (fun i => G (i + 1)) rd + gapLines tg + 1, false⟩) :=
+  parseRdata_render ctx hctx cls ty h41 h250 G S tg cmt crlf r rd hG hT hwf hk w hw hv line
+
+/-- **Gaps and line ends** (the lexical layer): a well-formed gap is skipped up to the next
+    field, with the line count and parenthesis state it implies; the end of a record or line —
+    a gap that leaves the parentheses, an optional comment, LF or CRLF — is recognised as such -/
+theorem C23_gaps (thr : Bool) (g : PGap) (p p' : Bool) (hg : GapOK g p p') (X : List UInt8) (hX : Starts X)
+    (tg : PGap) (cmt : List UInt8) (q : Bool) (hT : TailOK tg cmt q) (crlf : Bool) (r : List UInt8) (line : Nat) :
+    fieldOrEol thr (gapText g ++ X) line p = .ok (.Field, ⟨X, line + gapLines g, p'⟩) ∧
+    fieldOrEol true (tailText tg cmt crlf ++ r) line q = .ok (.Eol, ⟨r, line + gapLines tg + 1, false⟩) :=
+  ⟨fieldOrEol_gapG thr g p p' hg.wf hg.run X hX line, fieldOrEol_tail tg cmt q hT crlf r line⟩
+
+example : fieldOrEol false (gapText [.blank false, .openParen, .newline [59, 120] true, .blank true] ++ [97]) 1 false =
+      .ok (.Field, ⟨[97], 2, true⟩) ∧
+    fieldOrEol true (tailText [.newline [] false, .closeParen, .blank false] [59, 120] true ++ [97]) 1 true =
+      .ok (.Eol, ⟨[97], 3, false⟩) :=
+  C23_gaps false [.blank false, .openParen, .newline [59, 120] true, .blank true] false true
+    (GapOK_of_B (by decide)) [97] ⟨97, [], rfl, .inr (by decide)⟩
+    [.newline [] false, .closeParen, .blank false] [59, 120] true (TailOK_of_B (by decide)) true [97] 1
 
 /-! ### records and files -/
 
@@ -171,22 +200,27 @@ private def sD : PString := ⟨false, [(100, .dec)]⟩
     ` SOA @ a 1 2 3 4 4294967295` / `a 7 iN Srv 1 2 3 @` / ` MINFO a m\\\<newline>.\120. ;` /
     ` a 192.0.2.1` / ` txt "a<newline>b\"" c\;d \100` (two lines) / ` Hinfo "" \100` -/
 def exFile : List PEntry :=
-  [.origin [[(116, .raw)]] [32] [] [],
+  [.origin [[(116, .raw)]] [32] [] [] false,
    .record ⟨.named (.abs [[(97, .raw), (46, .esc), (98, .raw)], [(10, .dec), (99, .raw)]]), some 5,
-      some (.mnemonic [105, 78] 1), true, .generic 1, .generic [1, 2, 3, 4], [32], [32], [59, 120]⟩,
-   .blank [9] [],
-   .record ⟨.same, none, none, false, .generic 16, .generic [1, 97], [32, 9], [], []⟩,
-   .ttl 9 [32] [] [],
-   .record ⟨.named (.rel [] [(119, .raw)]), none, some (.generic 3), false, .generic 99, .generic [], [32], [], []⟩,
-   .record ⟨.named .atSign, none, none, true, .mnemonic [78, 115] 2, .name nA, [32], [], []⟩,
-   .record ⟨.same, none, none, true, .mnemonic [109, 120] 15, .mx 10 nMail, [32], [], []⟩,
-   .record ⟨.same, none, none, true, .mnemonic [83, 79, 65] 6, .soa .atSign nA 1 2 3 4 4294967295, [32], [], []⟩,
+      some (.mnemonic [105, 78] 1), true, .generic 1, .generic [1, 2, 3, 4], [32], [], [.blank false], [59, 120], true⟩,
+   .blank [9] [] true,
+   .record ⟨.same, none, none, false, .generic 16, .generic [1, 97], [32, 9],
+      [[.blank true], [.openParen], [.newline [59, 104] false, .blank false]], [.closeParen], [], false⟩,
+   .ttl 9 [32] [] [] true,
+   .record ⟨.named (.rel [] [(119, .raw)]), none, some (.generic 3), false, .generic 99, .generic [], [32], [], [], [], false⟩,
+   .record ⟨.named .atSign, none, none, true, .mnemonic [78, 115] 2, .name nA, [32], [], [], [], false⟩,
+   .record ⟨.same, none, none, true, .mnemonic [109, 120] 15, .mx 10 nMail, [32], [], [], [], false⟩,
+   .record ⟨.same, none, none, true, .mnemonic [83, 79, 65] 6, .soa .atSign nA 1 2 3 4 4294967295, [32],
+      [[.blank false], [.blank false], [.blank false, .openParen, .blank false],
+       [.blank false, .newline [59, 115] true, .blank false], [.newline [] false, .blank true]],
+      [.blank false, .closeParen, .blank false], [59, 100], false⟩,
    .record ⟨.named nA, some 7, some (.mnemonic [105, 78] 1), false, .mnemonic [83, 114, 118] 33,
-      .srv 1 2 3 .atSign, [9], [], []⟩,
-   .record ⟨.same, none, none, true, .mnemonic [77, 73, 78, 70, 79] 14, .minfo nA nMail, [32], [32], [59]⟩,
-   .record ⟨.same, none, none, true, .mnemonic [97] 1, .a 192 0 2 1, [32], [], []⟩,
-   .record ⟨.same, none, none, true, .mnemonic [116, 120, 116] 16, .txt sQ [sU, sD], [32], [], []⟩,
-   .record ⟨.same, none, none, true, .mnemonic [72, 105, 110, 102, 111] 13, .hinfo ⟨true, []⟩ sD, [32], [], []⟩]
+      .srv 1 2 3 .atSign, [9], [], [], [], false⟩,
+   .record ⟨.same, none, none, true, .mnemonic [77, 73, 78, 70, 79] 14, .minfo nA nMail, [32], [], [.blank false], [59], false⟩,
+   .record ⟨.same, none, none, true, .mnemonic [97] 1, .a 192 0 2 1, [32], [[.blank false, .openParen]], [.closeParen], [], true⟩,
+   .record ⟨.same, none, none, true, .mnemonic [116, 120, 116] 16, .txt sQ [sU, sD], [32],
+      [[.blank false, .openParen, .blank false], [.blank false], [.newline [] true, .blank false]], [.closeParen], [], false⟩,
+   .record ⟨.same, none, none, true, .mnemonic [72, 105, 110, 102, 111] 13, .hinfo ⟨true, []⟩ sD, [32], [], [], [], false⟩]
 
 /-- the example file is well-formed and denotes eleven records -/
 theorem exFile_ok :
@@ -194,16 +228,16 @@ theorem exFile_ok :
     denoteFile validB exFile (toSCtx {}) 1 =
       some [⟨2, [3, 97, 46, 98, 2, 10, 99, 0], 5, 1, 1, [1, 2, 3, 4]⟩,
             ⟨4, [3, 97, 46, 98, 2, 10, 99, 0], 5, 1, 16, [1, 97]⟩,
-            ⟨6, [1, 119, 1, 116, 0], 9, 3, 99, []⟩,
-            ⟨7, [1, 116, 0], 9, 3, 2, [1, 97, 1, 116, 0]⟩,
-            ⟨8, [1, 116, 0], 9, 3, 15, [0, 10, 3, 109, 92, 10, 1, 120, 0]⟩,
-            ⟨10, [1, 116, 0], 9, 3, 6, [1, 116, 0, 1, 97, 1, 116, 0, 0, 0, 0, 1, 0, 0, 0, 2, 0, 0, 0, 3,
+            ⟨7, [1, 119, 1, 116, 0], 9, 3, 99, []⟩,
+            ⟨8, [1, 116, 0], 9, 3, 2, [1, 97, 1, 116, 0]⟩,
+            ⟨9, [1, 116, 0], 9, 3, 15, [0, 10, 3, 109, 92, 10, 1, 120, 0]⟩,
+            ⟨11, [1, 116, 0], 9, 3, 6, [1, 116, 0, 1, 97, 1, 116, 0, 0, 0, 0, 1, 0, 0, 0, 2, 0, 0, 0, 3,
               0, 0, 0, 4, 255, 255, 255, 255]⟩,
-            ⟨11, [1, 97, 1, 116, 0], 7, 1, 33, [0, 1, 0, 2, 0, 3, 1, 116, 0]⟩,
-            ⟨12, [1, 97, 1, 116, 0], 9, 1, 14, [1, 97, 1, 116, 0, 3, 109, 92, 10, 1, 120, 0]⟩,
-            ⟨14, [1, 97, 1, 116, 0], 9, 1, 1, [192, 0, 2, 1]⟩,
-            ⟨15, [1, 97, 1, 116, 0], 9, 1, 16, [4, 97, 10, 98, 34, 3, 99, 59, 100, 1, 100]⟩,
-            ⟨17, [1, 97, 1, 116, 0], 9, 1, 13, [0, 1, 100]⟩] := by
+            ⟨14, [1, 97, 1, 116, 0], 7, 1, 33, [0, 1, 0, 2, 0, 3, 1, 116, 0]⟩,
+            ⟨15, [1, 97, 1, 116, 0], 9, 1, 14, [1, 97, 1, 116, 0, 3, 109, 92, 10, 1, 120, 0]⟩,
+            ⟨17, [1, 97, 1, 116, 0], 9, 1, 1, [192, 0, 2, 1]⟩,
+            ⟨18, [1, 97, 1, 116, 0], 9, 1, 16, [4, 97, 10, 98, 34, 3, 99, 59, 100, 1, 100]⟩,
+            ⟨21, [1, 97, 1, 116, 0], 9, 1, 13, [0, 1, 100]⟩] := by
   refine ⟨?_, by decide +kernel⟩
   have wfA : WFName nA := by unfold nA WFName; exact ⟨by decide, by simp [LabelsOK, labelOctets], by decide⟩
   have wfMail : WFName nMail := by
@@ -214,58 +248,59 @@ theorem exFile_ok :
   simp only [exFile, List.mem_cons, List.mem_nil_iff, or_false] at he
   rcases he with rfl | rfl | rfl | rfl | rfl | rfl | rfl | rfl | rfl | rfl | rfl | rfl | rfl | rfl
   · exact ⟨⟨by simp, by decide, by simp [LabelsOK, labelOctets], by decide⟩, by simp, by decide, by decide, .inl rfl⟩
-  · refine ⟨by simp, by decide, by decide, .inr ⟨[120], rfl, by decide⟩, ?_, by decide, ?_,
-      ⟨by simp [WFType], by decide, by decide, by decide⟩, by simp [WFRdata]⟩
+  · refine ⟨by simp, by decide, ?_, by decide, ?_,
+      ⟨by simp [WFType], by decide, by decide, by decide⟩, by simp [WFRdata], gaps_ok_of_B _ (by decide)⟩
     · intro n hn; cases hn
       exact ⟨⟨by simp, by decide, by simp [LabelsOK, labelOctets], by decide⟩, by decide⟩
     · intro c hc; cases hc; exact mIN
   · exact ⟨by decide, .inl rfl⟩
-  · exact ⟨by simp, by decide, by decide, .inl rfl, noOwner, by decide, (by intro c hc; cases hc),
-      ⟨by simp [WFType], by decide, by decide, by decide⟩, by simp [WFRdata]⟩
+  · exact ⟨by simp, by decide, noOwner, by decide, (by intro c hc; cases hc),
+      ⟨by simp [WFType], by decide, by decide, by decide⟩, by simp [WFRdata], gaps_ok_of_B _ (by decide)⟩
   · exact ⟨by decide, by simp, by decide, by decide, .inl rfl⟩
-  · refine ⟨by simp, by decide, by decide, .inl rfl, ?_, by decide, ?_,
-      ⟨by simp [WFType], by decide, by decide, by decide⟩, by simp [WFRdata]⟩
+  · refine ⟨by simp, by decide, ?_, by decide, ?_,
+      ⟨by simp [WFType], by decide, by decide, by decide⟩, by simp [WFRdata], gaps_ok_of_B _ (by decide)⟩
     · intro n hn; cases hn
       exact ⟨⟨by decide, by simp [LabelsOK, labelOctets], by decide⟩, by decide⟩
     · intro c hc; cases hc; exact (by decide : (3 : Nat) ≤ 65535)
-  · refine ⟨by simp, by decide, by decide, .inl rfl, ?_, by decide, (by intro c hc; cases hc),
-      ⟨mNs, by decide, by decide, by decide⟩, ⟨wfA, by decide⟩⟩
+  · refine ⟨by simp, by decide, ?_, by decide, (by intro c hc; cases hc),
+      ⟨mNs, by decide, by decide, by decide⟩, ⟨wfA, by decide⟩, gaps_ok_of_B _ (by decide)⟩
     intro n hn; cases hn; exact ⟨trivial, by decide⟩
-  · exact ⟨by simp, by decide, by decide, .inl rfl, noOwner, by decide, (by intro c hc; cases hc),
-      ⟨mMx, by decide, by decide, by decide⟩, ⟨by decide, wfMail⟩⟩
-  · exact ⟨by simp, by decide, by decide, .inl rfl, noOwner, by decide, (by intro c hc; cases hc),
+  · exact ⟨by simp, by decide, noOwner, by decide, (by intro c hc; cases hc),
+      ⟨mMx, by decide, by decide, by decide⟩, ⟨by decide, wfMail⟩, gaps_ok_of_B _ (by decide)⟩
+  · exact ⟨by simp, by decide, noOwner, by decide, (by intro c hc; cases hc),
       ⟨mSoa, by decide, by decide, by decide⟩,
-      ⟨trivial, wfA, by decide, by decide, by decide, by decide, by decide, by decide⟩⟩
-  · refine ⟨by simp, by decide, by decide, .inl rfl, ?_, by decide, ?_,
-      ⟨mSrv, by decide, by decide, by decide⟩, ⟨by decide, by decide, by decide, trivial⟩⟩
+      ⟨trivial, wfA, by decide, by decide, by decide, by decide, by decide, by decide⟩, gaps_ok_of_B _ (by decide)⟩
+  · refine ⟨by simp, by decide, ?_, by decide, ?_,
+      ⟨mSrv, by decide, by decide, by decide⟩, ⟨by decide, by decide, by decide, trivial⟩, gaps_ok_of_B _ (by decide)⟩
     · intro n hn; cases hn; exact ⟨wfA, by decide⟩
     · intro c hc; cases hc; exact mIN
-  · exact ⟨by simp, by decide, by decide, .inr ⟨[], rfl, by simp⟩, noOwner, by decide, (by intro c hc; cases hc),
-      ⟨mMinfo, by decide, by decide, by decide⟩, ⟨wfA, wfMail, by decide⟩⟩
-  · exact ⟨by simp, by decide, by decide, .inl rfl, noOwner, by decide, (by intro c hc; cases hc),
-      ⟨mA, by decide, by decide, by decide⟩, ⟨by decide, by decide, by decide, by decide⟩⟩
-  · refine ⟨by simp, by decide, by decide, .inl rfl, noOwner, by decide, (by intro c hc; cases hc),
-      ⟨mTxt, by decide, by decide, by decide⟩, ⟨?_, by decide, by decide⟩⟩
+  · exact ⟨by simp, by decide, noOwner, by decide, (by intro c hc; cases hc),
+      ⟨mMinfo, by decide, by decide, by decide⟩, ⟨wfA, wfMail, by decide⟩, gaps_ok_of_B _ (by decide)⟩
+  · exact ⟨by simp, by decide, noOwner, by decide, (by intro c hc; cases hc),
+      ⟨mA, by decide, by decide, by decide⟩, ⟨by decide, by decide, by decide, by decide⟩, gaps_ok_of_B _ (by decide)⟩
+  · refine ⟨by simp, by decide, noOwner, by decide, (by intro c hc; cases hc),
+      ⟨mTxt, by decide, by decide, by decide⟩, ⟨?_, by decide, by decide⟩, gaps_ok_of_B _ (by decide)⟩
     intro x hx
     simp only [List.mem_cons, List.mem_nil_iff, or_false] at hx
     rcases hx with rfl | rfl | rfl <;> exact ⟨by decide, by decide, by decide⟩
-  · exact ⟨by simp, by decide, by decide, .inl rfl, noOwner, by decide, (by intro c hc; cases hc),
-      ⟨mHinfo, by decide, by decide, by decide⟩, ⟨⟨by decide, by decide, by decide⟩, ⟨by decide, by decide, by decide⟩, by decide⟩⟩
+  · exact ⟨by simp, by decide, noOwner, by decide, (by intro c hc; cases hc),
+      ⟨mHinfo, by decide, by decide, by decide⟩,
+      ⟨⟨by decide, by decide, by decide⟩, ⟨by decide, by decide, by decide⟩, by decide⟩, gaps_ok_of_B _ (by decide)⟩
 
 /-- … so the theorem applies to it -/
 example : parseAll (renderFile exFile) {} =
     [.item (.record 2 ⟨[3, 97, 46, 98, 2, 10, 99, 0], 5, 1, 1, [1, 2, 3, 4]⟩),
      .item (.record 4 ⟨[3, 97, 46, 98, 2, 10, 99, 0], 5, 1, 16, [1, 97]⟩),
-     .item (.record 6 ⟨[1, 119, 1, 116, 0], 9, 3, 99, []⟩),
-     .item (.record 7 ⟨[1, 116, 0], 9, 3, 2, [1, 97, 1, 116, 0]⟩),
-     .item (.record 8 ⟨[1, 116, 0], 9, 3, 15, [0, 10, 3, 109, 92, 10, 1, 120, 0]⟩),
-     .item (.record 10 ⟨[1, 116, 0], 9, 3, 6, [1, 116, 0, 1, 97, 1, 116, 0, 0, 0, 0, 1, 0, 0, 0, 2, 0, 0, 0, 3,
+     .item (.record 7 ⟨[1, 119, 1, 116, 0], 9, 3, 99, []⟩),
+     .item (.record 8 ⟨[1, 116, 0], 9, 3, 2, [1, 97, 1, 116, 0]⟩),
+     .item (.record 9 ⟨[1, 116, 0], 9, 3, 15, [0, 10, 3, 109, 92, 10, 1, 120, 0]⟩),
+     .item (.record 11 ⟨[1, 116, 0], 9, 3, 6, [1, 116, 0, 1, 97, 1, 116, 0, 0, 0, 0, 1, 0, 0, 0, 2, 0, 0, 0, 3,
               0, 0, 0, 4, 255, 255, 255, 255]⟩),
-     .item (.record 11 ⟨[1, 97, 1, 116, 0], 7, 1, 33, [0, 1, 0, 2, 0, 3, 1, 116, 0]⟩),
-     .item (.record 12 ⟨[1, 97, 1, 116, 0], 9, 1, 14, [1, 97, 1, 116, 0, 3, 109, 92, 10, 1, 120, 0]⟩),
-     .item (.record 14 ⟨[1, 97, 1, 116, 0], 9, 1, 1, [192, 0, 2, 1]⟩),
-     .item (.record 15 ⟨[1, 97, 1, 116, 0], 9, 1, 16, [4, 97, 10, 98, 34, 3, 99, 59, 100, 1, 100]⟩),
-     .item (.record 17 ⟨[1, 97, 1, 116, 0], 9, 1, 13, [0, 1, 100]⟩)] := by
+     .item (.record 14 ⟨[1, 97, 1, 116, 0], 7, 1, 33, [0, 1, 0, 2, 0, 3, 1, 116, 0]⟩),
+     .item (.record 15 ⟨[1, 97, 1, 116, 0], 9, 1, 14, [1, 97, 1, 116, 0, 3, 109, 92, 10, 1, 120, 0]⟩),
+     .item (.record 17 ⟨[1, 97, 1, 116, 0], 9, 1, 1, [192, 0, 2, 1]⟩),
+     .item (.record 18 ⟨[1, 97, 1, 116, 0], 9, 1, 16, [4, 97, 10, 98, 34, 3, 99, 59, 100, 1, 100]⟩),
+     .item (.record 21 ⟨[1, 97, 1, 116, 0], 9, 1, 13, [0, 1, 100]⟩)] := by
   rw [C23_records_partial exFile exFile_ok.1 {} CtxWF_default _ exFile_ok.2]
   rfl
 
@@ -273,28 +308,41 @@ example : parseAll (renderFile exFile) {} =
     eleven records -/
 example : (parseAll (renderFile exFile) {}).length = 11 := by decide +kernel
 
-/-- RDATA alone: `10 mail` after the type field of an MX record, origin `t.` -/
+/-- RDATA alone: ` ( 10 ;x<CRLF> a )` after the type field of an MX record, origin `t.` -/
 example : parseRdata { origin := some [1, 116, 0] } 1 15
-    ⟨[32] ++ (rdataText [32] (.mx 10 nA) ++ ([] ++ ([] ++ 10 :: []))), 1, false⟩ =
-    .ok ([0, 10, 1, 97, 1, 116, 0], ⟨[], 2, false⟩) :=
-  C23_rdata_partial { origin := some [1, 116, 0] }
+    ⟨gapText [.blank false, .openParen, .blank false] ++
+      (rdataText (fun _ => [.blank false, .newline [59, 120] true, .blank false]) (.mx 10 nA) ++
+        (tailText [.blank false, .closeParen] [] false ++ [])), 1, false⟩ =
+    .ok ([0, 10, 1, 97, 1, 116, 0], ⟨[], 3, false⟩) := by
+  have h := C23_rdata_partial { origin := some [1, 116, 0] }
     ⟨by intro o ho; cases ho; exact ⟨[[116]], by simp [LabelsOK], by decide, by decide⟩, by simp⟩
-    1 15 (by decide) (by decide) [32] [] [] [] (by simp) (by decide) (by simp) (.inl rfl) (.mx 10 nA)
+    1 15 (by decide) (by decide)
+    (fun i => if i = 0 then [.blank false, .openParen, .blank false] else [.blank false, .newline [59, 120] true, .blank false])
+    (fun i => decide (1 ≤ i)) [.blank false, .closeParen] [] false [] (.mx 10 nA)
+    (by
+      intro i hi
+      have : i = 0 ∨ i = 1 := by simp [rdataGaps] at hi; omega
+      rcases this with rfl | rfl <;> exact GapOK_of_B (by decide))
+    (TailOK_of_B (by decide))
     ⟨by decide, by unfold nA WFName; exact ⟨by decide, by simp [LabelsOK, labelOctets], by decide⟩⟩
-    (by decide) _ (by decide) (by intro g hg; cases hg) 1
+    (by decide) [0, 10, 1, 97, 1, 116, 0] (by decide) (by intro g hg; cases hg) 1
+  simpa [rdataLines, gapLines, nameLines, nA, labelLines] using h
 
-private def exRec : PRecord := ⟨.same, none, none, true, .mnemonic [109, 120] 15, .mx 10 nA, [32], [], []⟩
+private def exRec : PRecord :=
+  ⟨.same, none, none, true, .mnemonic [109, 120] 15, .mx 10 nA, [32], [[.blank false, .openParen]],
+    [.newline [] true, .closeParen], [], false⟩
 
-/-- one record line: ` mx 10 a` with previous owner `t.`, TTL 9, class 1 -/
+/-- one record: ` mx (10 a<CRLF>)<LF>` with previous owner `t.`, TTL 9, class 1 — two lines -/
 example : ∃ ctx', parseLine { origin := some [1, 116, 0], prevOwner := some [1, 116, 0], prevTtl := some 9, prevClass := some 1 }
       ⟨renderRecord exRec ++ [], 1, false⟩ =
-      .ok ((some (.record 1 ⟨[1, 116, 0], 9, 1, 15, [0, 10, 1, 97, 1, 116, 0]⟩), ctx'), ⟨[], 2, false⟩) ∧
+      .ok ((some (.record 1 ⟨[1, 116, 0], 9, 1, 15, [0, 10, 1, 97, 1, 116, 0]⟩), ctx'), ⟨[], 3, false⟩) ∧
       toSCtx ctx' = ⟨some [1, 116, 0], some [1, 116, 0], some 9, some 1, none⟩ := by
   have hT : NameWF [1, 116, 0] := ⟨[[116]], by simp [LabelsOK], by decide, by decide⟩
   have hwf : WFRecord exRec :=
-    ⟨by simp [exRec], by decide, by decide, .inl rfl, (by intro n h; cases h), by decide, (by intro c hc; cases hc),
+    ⟨by simp [exRec], by decide, (by intro n h; cases h), by decide, (by intro c hc; cases hc),
       ⟨mMx, by decide, by decide, by decide⟩,
-      ⟨by decide, by unfold nA WFName; exact ⟨by decide, by simp [LabelsOK, labelOctets], by decide⟩⟩⟩
+      ⟨by decide, by unfold nA WFName; exact ⟨by decide, by simp [LabelsOK, labelOctets], by decide⟩⟩,
+      gaps_ok_of_B _ (by decide)⟩
   exact C23_record_partial _ ⟨by intro o ho; cases ho; exact hT, by intro o ho; cases ho; exact hT⟩ exRec hwf
     1 [] ⟨1, [1, 116, 0], 9, 1, 15, [0, 10, 1, 97, 1, 116, 0]⟩ _ (by decide +kernel)
 
